@@ -71,3 +71,48 @@ Section Calendar.
   Lemma date_roundtrip i : parse_date_m (http_date_m i) = Some i.
   Proof. unfold parse_date_m, http_date_m. rewrite date_codec by apply fields_in_range. apply instant_of_fields. Qed.
 End Calendar.
+
+(* ------------------------------------------------------------------ the three accepted shapes and the normal form *)
+(* what http_date can emit for an instant parse_date can return: a valid calendar date, year >= 100 (smaller years are
+   re-read through the two-digit pivot), no leap second *)
+Definition instant_fields_ok (f : date_fields) : bool :=
+  fields_ok f && datetime_ok (f_day f) (f_mon f) (f_year f) (f_hour f) (f_min f) (f_sec f) 0 && (100 <=? f_year f).
+
+Lemma date_shapes_canonical f : instant_fields_ok f = true ->
+  parse_date_shapes (format_http_date f) = Some (f_day f, f_mon f, f_year f, f_hour f, f_min f, f_sec f, 0%Z).
+Proof.
+  unfold instant_fields_ok. intro H. apply andb_prop in H. destruct H as [H Hy]. apply andb_prop in H. destruct H as [Hf Hd].
+  unfold parse_date_shapes. rewrite (date_codec f Hf). unfold pivot_year. replace (f_year f <? 100) with false by lia.
+  rewrite Hd. reflexivity.
+Qed.
+
+(* years below 100 do not survive: http_date writes 0050, which is read back through the pivot as 2050 *)
+Lemma date_small_year_refuted :
+  exists f, fields_ok f = true /\ parse_date_shapes (format_http_date f) <> Some (f_day f, f_mon f, f_year f, f_hour f, f_min f, f_sec f, 0%Z).
+Proof.
+  exists {| f_wday := 0; f_day := 1; f_mon := 1; f_year := 50; f_hour := 0; f_min := 0; f_sec := 0 |}.
+  split; [reflexivity|]. vm_compute. discriminate.
+Qed.
+
+Section Calendar3.
+  Variable instant : Type.
+  Variable fields_of : instant -> date_fields.                               (* an instant's UTC field view *)
+  Variable instant_at : N * N * N * N * N * N * Z -> option instant.         (* datetime(fields, tzinfo=offset minutes) as an instant *)
+  Hypothesis fields_valid : forall i, instant_fields_ok (fields_of i) = true.
+  Hypothesis instant_at_fields : forall i,
+    instant_at (f_day (fields_of i), f_mon (fields_of i), f_year (fields_of i),
+                f_hour (fields_of i), f_min (fields_of i), f_sec (fields_of i), 0%Z) = Some i.
+
+  (* parse_date on the three shapes; http_date *)
+  Definition parse_date_full (t : str) : option instant :=
+    match parse_date_shapes t with Some r => instant_at r | None => None end.
+  Definition http_date_full (i : instant) : str := format_http_date (fields_of i).
+
+  Lemma date_full_roundtrip i : parse_date_full (http_date_full i) = Some i.
+  Proof. unfold parse_date_full, http_date_full. rewrite date_shapes_canonical by apply fields_valid. apply instant_at_fields. Qed.
+
+  (* normal form: whatever text of the three shapes (any zone, two-digit year) was parsed, re-serialising and parsing again
+     gives the same instant *)
+  Lemma date_normal_form t i : parse_date_full t = Some i -> parse_date_full (http_date_full i) = parse_date_full t.
+  Proof. intro H. rewrite H. apply date_full_roundtrip. Qed.
+End Calendar3.
